@@ -6,8 +6,8 @@ import ZCV.Spec.Subst
 namespace ZCV.Subst
 open ZCV ZCV.Rx ZCV.SubstSpec
 
-def nameK1 : Cls := ⟨false, [.range 97 122, .range 65 90, .range 95 95]⟩
-def nameK2 : Cls := ⟨false, [.range 97 122, .range 65 90, .range 48 57, .range 95 95]⟩
+def nameK1 : Cls := ⟨false, [.range 65 90, .range 95 95, .range 97 122]⟩
+def nameK2 : Cls := ⟨false, [.range 48 57, .range 65 90, .range 95 95, .range 97 122]⟩
 
 /-- the generated term has the `[k1][k2]*` shape with exactly these classes
     (this is the obligation an edit of `_name_re` breaks) -/
